@@ -351,3 +351,126 @@ package stackage
 //@ ensures[C07:Traverse.fail] !ok ==> slice == nil
 //@ ensures[C17:Traverse.nil] r == nil ==> slice == nil && !ok
 //@ modifies G_calls_len, G_calls_fn, G_calls_arg
+
+// ---------------------------------------------------------------------
+// C13 (stack side): IsNesting / CanNest
+
+//@ func (stack).isNesting
+//@ tags C13
+//@ requires wfs(r)
+//@ let n := len(r)
+//@ ensures[C13:isNesting] is == (exists k :: 1 <= k && k < n && isStackLike(r[k]))
+//@ modifies nothing
+//@ loop 1 invariant 1 <= i && i <= n && !is && (forall m :: 1 <= m && m < i ==> !isStackLike(r[m]))
+
+//@ func (Stack).IsNesting
+//@ tags C13
+//@ safety C08,C17
+//@ requires r == nil || wf(r)
+//@ let L := ulen(r)
+//@ ensures[C13:IsNesting] r != nil ==> is == (exists k :: 1 <= k && k <= L && isStackLike(slot(r, k)))
+//@ ensures[C17:IsNesting.nil] r == nil ==> !is
+//@ modifies nothing
+
+//@ func (Stack).CanNest
+//@ tags C13
+//@ safety C08,C17
+//@ requires r == nil || wf(r)
+//@ ensures[C13:CanNest] result == (r != nil && !bit(F_nodeConfig_opt[cfgOf(r)], 0x0100))
+//@ modifies nothing
+
+// ---------------------------------------------------------------------
+// C06: a Condition holds exactly what it accepted (C13: no-nesting on the Condition side)
+
+//@ func (ComparisonOperator).String
+//@ tags C06
+//@ ensures[C06:cop.String] op == copStr(r)
+//@ modifies nothing
+
+//@ func (Condition).SetExpression
+//@ tags C06,C13
+//@ safety C06,C08
+//@ requires r == nil || cwf(r)
+//@ let g := F_condition_cfg[r]
+//@ let o := F_nodeConfig_opt[g]
+//@ let ok := acceptEx(bit(o, 0x0100), F_nodeConfig_err[g], ex)
+//@ ensures[C06,C13:SetExpression] r != nil && !bit(o, 0x0080) ==> F_condition_ex[r] == ite(ok, ex, old(F_condition_ex[r]))
+//@ ensures[C09:SetExpression.ro] r != nil && bit(o, 0x0080) ==> F_condition_ex[r] == old(F_condition_ex[r])
+//@ ensures[:SetExpression.ret] result == r
+//@ modifies F_condition_ex[r]
+
+//@ func (Condition).SetOperator
+//@ tags C06
+//@ safety C06,C08
+//@ requires r == nil || cwf(r)
+//@ let o := F_nodeConfig_opt[F_condition_cfg[r]]
+//@ ensures[C06:SetOperator] r != nil && !bit(o, 0x0080) ==> F_condition_op[r] == ite(acceptOp(op), op, old(F_condition_op[r]))
+//@ ensures[C09:SetOperator.ro] r != nil && bit(o, 0x0080) ==> F_condition_op[r] == old(F_condition_op[r])
+//@ modifies F_condition_op[r]
+
+//@ func (Condition).SetKeyword
+//@ tags C06
+//@ safety C06,C08
+//@ requires r == nil || cwf(r)
+//@ let o := F_nodeConfig_opt[F_condition_cfg[r]]
+//@ ensures[C06:SetKeyword.string] r != nil && !bit(o, 0x0080) && is_v_str(kw) ==> F_condition_kw[r] == str_of(kw)
+//@ ensures[C06:SetKeyword.nil] r != nil && kw == nil ==> F_condition_kw[r] == old(F_condition_kw[r])
+//@ ensures[C09:SetKeyword.ro] r != nil && bit(o, 0x0080) ==> F_condition_kw[r] == old(F_condition_kw[r])
+//@ modifies F_condition_kw[r], G_calls_len, G_calls_fn, G_calls_arg
+
+//@ func (Condition).Keyword
+//@ tags C06
+//@ safety C06,C17
+//@ requires r == nil || cwf(r)
+//@ ensures[C06:Keyword] kw == ite(r != nil, F_condition_kw[r], "")
+//@ modifies nothing
+
+//@ func (Condition).Operator
+//@ tags C06
+//@ safety C06,C17
+//@ requires r == nil || cwf(r)
+//@ ensures[C06:Operator] op == ite(r != nil, F_condition_op[r], nil)
+//@ modifies nothing
+
+//@ func (Condition).Expression
+//@ tags C06
+//@ safety C06,C17
+//@ requires r == nil || cwf(r)
+//@ ensures[C06:Expression] ex == ite(r != nil, F_condition_ex[r], nil)
+//@ modifies nothing
+
+//@ func (Condition).Valid
+//@ tags C06
+//@ safety C06,C17
+//@ requires r == nil || cwf(r)
+//@ requires r != nil ==> F_nodeConfig_vpf[F_condition_cfg[r]] == nil
+//@ ensures[C06:Valid] r != nil ==> (err == nil) == condValid(F_condition_kw[r], F_condition_op[r], F_condition_ex[r])
+//@ ensures[C17:Valid.nil] r == nil ==> err != nil
+//@ modifies nothing
+
+//@ func (Condition).CanNest
+//@ tags C13
+//@ safety C06,C17
+//@ requires r == nil || cwf(r)
+//@ ensures[C13:Cond.CanNest] can == (r != nil && !bit(F_nodeConfig_opt[F_condition_cfg[r]], 0x0100))
+//@ modifies nothing
+
+//@ func (Condition).IsNesting
+//@ tags C13
+//@ safety C06,C17
+//@ requires r == nil || cwf(r)
+//@ ensures[C13:Cond.IsNesting] is == (r != nil && isStackLike(F_condition_ex[r]))
+//@ modifies nothing
+
+//@ func Cond
+//@ tags C06
+//@ safety C06,C08
+//@ let ok1 := acceptOp(op)
+//@ let ok2 := acceptEx(false, nil, ex)
+//@ ensures[C06:Cond.init] c != nil && cwf(c) && fresh(c)
+//@ ensures[C06:Cond.kw] is_v_str(kw) ==> F_condition_kw[c] == str_of(kw)
+//@ ensures[C06:Cond.kw.nil] kw == nil ==> F_condition_kw[c] == ""
+//@ ensures[C06:Cond.op] F_condition_op[c] == ite(ok1, op, nil)
+//@ ensures[C06:Cond.ex] F_condition_ex[c] == ite(ok2, ex, nil)
+//@ ensures[C06:Cond.err] (F_nodeConfig_err[F_condition_cfg[c]] == nil) == condValid(F_condition_kw[c], F_condition_op[c], F_condition_ex[c])
+//@ modifies F_condition_*[fresh], F_nodeConfig_*[fresh], F_logSystem_*[fresh], G_calls_len, G_calls_fn, G_calls_arg
